@@ -1496,6 +1496,14 @@ hwloc__xml_import_memattr_value(hwloc_topology_t topology,
   target_obj_gp_index = strtoull(target_obj_gp_index_s, NULL, 10);
   value = strtoull(value_s, NULL, 10);
 
+  if (id == HWLOC_MEMATTR_ID_CAPACITY || id == HWLOC_MEMATTR_ID_LOCALITY) {
+    /* the values of these attributes are computed from the topology, they cannot be set */
+    if (hwloc__xml_verbose())
+      fprintf(stderr, "%s: ignoring memattr_value for an attribute whose values are computed by hwloc\n",
+              state->global->msgprefix);
+    return 0;
+  }
+
   if (flags & HWLOC_MEMATTR_FLAG_NEED_INITIATOR) {
     /* add a value with initiator */
     struct hwloc_internal_location_s loc;
